@@ -15,6 +15,7 @@ import (
 	"github.com/alpacahq/marketstore/v4/replication"
 	"github.com/alpacahq/marketstore/v4/verif/mc"
 	"github.com/alpacahq/marketstore/v4/verif/rt/vrt"
+	"github.com/alpacahq/marketstore/v4/verif/rt/vsync"
 )
 
 // C26 Replication survives replicas connecting and disconnecting.
@@ -127,10 +128,81 @@ func c26Scenario(name string, nCommits int, r1Fails, r2Fails bool) *scenario {
 	}
 }
 
+// c26SlowReplica: one schedule (no branching), long history: replica R1 stays connected but its stream's Send
+// stalls until the committer has issued all n commits (n > the 500-message stream buffer); once it resumes it is
+// owed every transaction group committed since it registered, in commit order.
+func c26SlowReplica(n int) *scenario {
+	return &scenario{
+		name: fmt.Sprintf("slow replica: R1 stalls in Send while %d transactions are committed, then resumes", n),
+		body: func(x *execCtx) {
+			vrt.Branching(false)
+			srv := replication.NewGRPCReplicationServer()
+			snd := replication.NewSender(srv)
+			snd.Run(context.Background())
+			gate := &vsync.Mutex{}
+			gate.Lock()
+			r1 := &slowStream{fakeStream: newFakeStream("R1", 1, false), gate: gate}
+			vrt.Spawn("R1", func() { _ = srv.GetWALStream(&pb.GetWALStreamRequest{}, r1) })
+			first := 0
+			c := vrt.Spawn("committer", func() {
+				for i := 1; i <= n; i++ {
+					vrt.Atomic(func() {
+						if first == 0 && len(srv.StreamChannels) > 0 {
+							first = i
+						}
+					})
+					snd.Send([]byte{byte(i >> 8), byte(i)})
+				}
+				gate.Unlock()
+			})
+			vrt.Join(c)
+			vrt.Quiesce()
+			x.data["slow"], x.data["first"] = r1, first
+			x.note("R1 registered before commit %d, received %d transaction groups", first, len(r1.ids))
+		},
+		judge: func(x *execCtx, sch *vrt.Sched) (vs []mc.Violation) {
+			r1, _ := x.data["slow"].(*slowStream)
+			first, _ := x.data["first"].(int)
+			if r1 == nil {
+				return nil
+			}
+			x.data["outcome"] = fmt.Sprintf("slow:first=%d,got=%d", first, len(r1.ids))
+			for i := 1; i < len(r1.ids); i++ {
+				if r1.ids[i] <= r1.ids[i-1] {
+					return []mc.Violation{{Sig: "reordered-or-duplicated", What: fmt.Sprintf("slow replica received transaction group %d after %d", r1.ids[i], r1.ids[i-1])}}
+				}
+			}
+			if first > 0 {
+				want := n - first + 1
+				if len(r1.ids) < want || r1.ids[len(r1.ids)-1] != n || r1.ids[len(r1.ids)-want] != first {
+					vs = append(vs, mc.Violation{Sig: "missing-tg|connected-replica|slow", What: fmt.Sprintf("replica R1 was registered before commit %d and never disconnected; after it resumed it had received %d of the %d transaction groups owed", first, len(r1.ids), want)})
+				}
+			}
+			return vs
+		},
+	}
+}
+
+type slowStream struct {
+	*fakeStream
+	gate *vsync.Mutex
+	ids  []int
+}
+
+func (f *slowStream) Send(r *pb.GetWALStreamResponse) error {
+	f.gate.Lock()
+	f.gate.Unlock()
+	if len(r.TransactionGroup) >= 2 {
+		f.ids = append(f.ids, int(r.TransactionGroup[0])<<8|int(r.TransactionGroup[1]))
+	}
+	return nil
+}
+
 var c26Scens = []*scenario{
 	c26Scenario("sender + committer(3 commits) + two replicas connecting at any time, none disconnects", 3, false, false),
 	c26Scenario("sender + committer(3 commits) + two replicas, R1 may disconnect at any send", 3, true, false),
 	c26Scenario("sender + committer(2 commits) + two replicas, both may disconnect", 2, true, true),
+	c26SlowReplica(600),
 }
 
 func init() {
@@ -138,13 +210,17 @@ func init() {
 		ID:    "C26",
 		Level: "model_checking",
 		Rule: "threads: the real Sender.Run goroutine, a committer calling Send 3 (2) times, two replicas running the real GetWALStream handler on a fake gRPC stream; a replica 'connects' when its handler thread is scheduled and 'disconnects' when its stream's Send returns an error at a point chosen by the explorer (environment choice); " +
-			"ALL interleavings and disconnect points with <=3 deviations (thorough 5). oracle: no panic, no deadlock, every replica receives transaction groups in commit order, and a replica registered before commit i that never disconnects receives i, i+1, ... non-trivial = >=1 deviation",
+			"ALL interleavings and disconnect points with <=3 deviations (thorough 5); plus one scripted long history (600 commits while a connected replica stalls in Send, more than the 500-message stream buffer). oracle: no panic, no deadlock, every replica receives transaction groups in commit order, and a replica registered before commit i that never disconnects receives i, i+1, ... non-trivial = >=1 deviation",
 		Assume:   []string{"the gRPC transport is replaced by a fake stream (Go interface level)", "the unsynchronised StreamChannels map is a data race (reported by the happens-before detector, counted in coverage.hb_races_seen); C26 judges its EFFECTS: accesses at the racy sites are scheduling points"},
 		QuickMax: 6 * time.Minute, ThorMax: 30 * time.Minute,
 	}, schedEnum(c26Scens, func(c *mc.Ctx, si int) int {
+		if si == 3 {
+			return 0 // the long history is one scripted schedule
+		}
 		if c.Thorough() {
 			return 5
 		}
 		return 3
 	}), schedRun(c26Scens, "C26"))
+	_ = vsync.Mutex{}
 }
